@@ -66,7 +66,7 @@ fn fname<R: FileReader>(reader: &R, id: uuid::Uuid) -> String {
     if id.is_nil() {
         return "<nil>".into();
     }
-    reader.get_filename(id).unwrap_or_else(|| "<unknown>".into())
+    reader.get_filename(id).map_or_else(|| "<unknown>".into(), |f| crate::lspreader::strip_root(&f))
 }
 
 pub fn normalise<R: FileReader>(reader: &R, d: &DiagnosticItem, code: Option<&str>) -> NDiag {
@@ -119,8 +119,20 @@ impl PassOp {
     pub const ALL: [PassOp; 4] = [PassOp::Available, PassOp::EcallTermination, PassOp::Liveness, PassOp::Diagnostics];
 }
 
+/// Which `FileReader` implementation serves the incarnation.
+#[derive(Clone, Copy, Debug, Serialize, Deserialize, PartialEq, Eq, Default)]
+pub enum ReaderKind {
+    /// the harness's in-memory reader (personality + fault plan)
+    #[default]
+    Sim,
+    /// the editor integration's real `LSPFileReader` (compiled from /repo by path)
+    Lsp,
+}
+
 #[derive(Clone, Debug, Serialize, Deserialize)]
 pub struct LintSpec {
+    #[serde(default)]
+    pub reader: ReaderKind,
     pub world: World,
     pub personality: Personality,
     pub faults: Vec<ReaderFault>,
@@ -137,8 +149,21 @@ pub struct LintSpec {
 }
 
 impl LintSpec {
+    /// Spec for one schedule of a scenario: reader kind, personality and fault plan from the scenario.
+    pub fn of(scn: &crate::scenario::Scenario, entropy: u64, api: Api) -> LintSpec {
+        let mut s = LintSpec::new(&scn.world, entropy, api);
+        s.personality = scn.personality;
+        if scn.personality == Personality::Lsp {
+            s.reader = ReaderKind::Lsp;
+        } else {
+            s.faults = scn.reader_faults.clone();
+        }
+        s
+    }
+
     pub fn new(world: &World, entropy: u64, api: Api) -> LintSpec {
         LintSpec {
+            reader: ReaderKind::Sim,
             world: world.clone(),
             personality: Personality::Strict,
             faults: vec![],
@@ -176,6 +201,8 @@ pub struct LintObs {
     pub reader_history: Vec<ReaderEvent>,
     pub fired: Vec<(usize, String)>,
     pub import_budget_exceeded: bool,
+    /// characters the reader handed out (0 when the reader keeps no account)
+    pub imported_chars: usize,
     pub parser_nodes: usize,
     pub parse_errors: usize,
     pub sig: OrderSig,
@@ -190,7 +217,9 @@ pub struct LintObs {
 /// Tick budget of the parse phase: every iteration of the parse loop consumes at least one token
 /// or pops a file, so a few times the number of characters is far above any correct run.
 fn default_budget(world: &World) -> u64 {
-    2_000 + 4 * world.total_bytes() as u64
+    // every file may be read once per include occurrence
+    let reads = 1 + world.include_occurrences() as u64;
+    2_000 + 4 * world.total_bytes() as u64 * reads
 }
 
 /// Tick budget of the analysis phase (sweeps of the `while changed` loops, summed over the pass
@@ -208,38 +237,54 @@ fn run_lints(cfg: &Cfg) -> Vec<(DiagnosticItem, String)> {
 }
 
 fn body(spec: LintSpec) -> LintObs {
+    match spec.reader {
+        ReaderKind::Sim => {
+            let base = spec.world.base.clone();
+            let mk = || {
+                let mut r = SimReader::new(&spec.world, spec.personality, &spec.faults);
+                r.forget_names = spec.forget_names;
+                r
+            };
+            let collect = |obs: &mut LintObs, r: &SimReader| {
+                obs.imports = r.imports();
+                obs.import_log = r.import_log.clone();
+                obs.reader_history = r.history.clone();
+                obs.fired = r.fired.iter().map(|(i, k)| (*i, k.name().to_string())).collect();
+                obs.import_budget_exceeded = r.budget_exceeded;
+                obs.imported_chars = r.imported_chars;
+            };
+            body_with(&spec, &base, &mk, &collect)
+        }
+        ReaderKind::Lsp => {
+            let base = crate::lspreader::base_uri(&spec.world);
+            let docs = crate::lspreader::documents(&spec.world);
+            let mk = || crate::lspreader::LSPFileReader::new(docs.clone());
+            let collect = |_obs: &mut LintObs, _r: &crate::lspreader::LSPFileReader| {};
+            body_with(&spec, &base, &mk, &collect)
+        }
+    }
+}
+
+fn body_with<R: FileReader>(spec: &LintSpec, base: &str, mk_reader: &dyn Fn() -> R, collect_reader: &dyn Fn(&mut LintObs, &R)) -> LintObs {
     let mut obs = LintObs::default();
     let budget = if spec.tick_budget == 0 { default_budget(&spec.world) } else { spec.tick_budget };
     riscv_analysis::verif::set_budget(budget);
     let _ = riscv_analysis::verif::take_counts();
-    let base = spec.world.base.clone();
-    let mk_reader = || {
-        let mut r = SimReader::new(&spec.world, spec.personality, &spec.faults);
-        r.forget_names = spec.forget_names;
-        r
-    };
-    let collect_reader = |obs: &mut LintObs, r: &SimReader| {
-        obs.imports = r.imports();
-        obs.import_log = r.import_log.clone();
-        obs.reader_history = r.history.clone();
-        obs.fired = r.fired.iter().map(|(i, k)| (*i, k.name().to_string())).collect();
-        obs.import_budget_exceeded = r.budget_exceeded;
-    };
     match spec.api {
         Api::Run | Api::RunTwice => {
             let mut parser = RVParser::new(mk_reader());
-            let d = parser.run(&base);
+            let d = parser.run(base);
             obs.diags = d.iter().map(|x| normalise(&parser.reader, x, None)).collect();
             collect_reader(&mut obs, &parser.reader);
             if spec.api == Api::RunTwice {
                 let mut parser2 = RVParser::new(mk_reader());
-                let d2 = parser2.run(&base);
+                let d2 = parser2.run(base);
                 obs.diags2 = Some(d2.iter().map(|x| normalise(&parser2.reader, x, None)).collect());
             }
         }
         Api::Coded => {
             let mut parser = RVParser::new(mk_reader());
-            let (nodes, perrs) = parser.parse_from_file(&base, false);
+            let (nodes, perrs) = parser.parse_from_file(base, false);
             obs.parser_nodes = nodes.len();
             obs.parse_errors = perrs.len();
             collect_reader(&mut obs, &parser.reader);
